@@ -363,6 +363,8 @@ fn fill_once(out: &mut [f32], fill_y: usize, adjacent_groups: [Option<SharedSubg
             (0, c, l, r)
         }
     };
+    // The group below may be only one row high.
+    let source_y = source_y.min(c.height() - 1);
     let c = c.get_row(source_y);
     let l = l.as_ref().map(|l| l.get_row(source_y));
     let r = r.as_ref().map(|r| r.get_row(source_y));
